@@ -52,6 +52,14 @@ template <class X> struct F {
             if (form) c.violation("C18", fmt("file/%s/form/%s", X::tag(), form), what);
             c.count(unix_ ? (absolute ? "form_unix_absolute" : "form_unix_relative") : drive ? "form_drive_absolute" : unc ? "form_unc" : "form_windows_relative");
         }
+        // the same conversion with the output buffer starting exactly behind the input's terminator (one block): same result
+        if ((c.case_index & 7) == 5) {
+            std::vector<Char> blk(w.size() + bound, X::wid('#')); memcpy(blk.data(), w.data(), w.size() * sizeof(Char));
+            int r2; { LibScope ls; r2 = unix_ ? X::UnixFilenameToUriString(blk.data(), blk.data() + w.size()) : X::WindowsFilenameToUriString(blk.data(), blk.data() + w.size()); } c.evaluations++;
+            size_t l2 = 0; while (l2 < bound && blk[w.size() + l2]) l2++;
+            if (r2 != URI_SUCCESS || l2 != len || narrow<X>(blk.data() + w.size(), blk.data() + w.size() + l2) != us || memcmp(blk.data(), w.data(), w.size() * sizeof(Char)) != 0)
+                c.violation("C18", fmt("file/%s/adjacent-buffers-differ", X::tag()), what + fmt(" rc=%d", r2));
+        }
         // back: buffer of exactly the documented size
         size_t backBound = absolute ? len + 1 - 5 : len + 1;
         std::vector<Char> ucopy(uri, uri + len + 1);
